@@ -234,6 +234,9 @@ def check(ctx):
     # ------------------------------------------------------------------ R01.5 ring shape conditions (shared with C02)
     C02 = importlib.import_module("props.C02")
     C02.check(util.PrefixedCtx(ctx, "R01.5"))
+    # ------------------------------------------------------------------ R01.7 poll / waker protocol (shared with C04): an accepted event is only 'yielded' if the parked stream is told
+    C04 = importlib.import_module("props.C04")
+    C04.check_poll_protocol(util.PrefixedCtx(ctx, "R01.7"))
     ctx.floor("R01.1", 20); ctx.floor("R01.2", 25); ctx.floor("R01.3", 12); ctx.floor("R01.4", 10); ctx.floor("R01.5", 30)
 
 
